@@ -36,6 +36,19 @@ type forwarder struct {
 	lis   net.Listener
 	conns map[net.Conn]*Conn
 	n     int64
+	tap   bool    // record the bytes of every connection
+	all   []*Conn // every connection ever accepted (when tap is set)
+}
+
+// tapped returns everything the clients sent and received through the forwarder so far.
+func (f *forwarder) tapped() (out, in []byte) {
+	f.mu.Lock()
+	defer f.mu.Unlock()
+	for _, a := range f.all {
+		o, i := a.Tapped()
+		out, in = append(out, o...), append(in, i...)
+	}
+	return
 }
 
 var fwSeq int64
@@ -68,6 +81,10 @@ func (f *forwarder) accept(l net.Listener) {
 			continue
 		}
 		f.conns[c] = a
+		if f.tap {
+			a.Tap()
+			f.all = append(f.all, a)
+		}
 		f.mu.Unlock()
 		go f.srv.ServeConn(b)
 		go func() { io.Copy(a, c); a.Close(); c.Close() }()
@@ -200,7 +217,11 @@ func runRedial(rec *Rec, app *App, fw *forwarder, sc *RedialScenario, n int) {
 		rt = -1
 	}
 	hooks := &dialHooks{rec: rec}
-	cli := erpc.NewPeer(erpc.PeerConfig{RedialTimes: rt, RedialInterval: 3 * time.Millisecond, DialTimeout: 200 * time.Millisecond}, hooks,
+	interval := 3 * time.Millisecond
+	if budget == 3 {
+		interval = 100 * time.Millisecond // the blip configuration: outages of 1.5 intervals
+	}
+	cli := erpc.NewPeer(erpc.PeerConfig{RedialTimes: rt, RedialInterval: interval, DialTimeout: 200 * time.Millisecond}, hooks,
 		NewPlug(rec, "cli", "CL", "all", ""))
 	sess, st := cli.Dial(fw.addr)
 	rec.Emit("DialDone", "ok", st.OK())
@@ -222,6 +243,7 @@ func runRedial(rec *Rec, app *App, fw *forwarder, sc *RedialScenario, n int) {
 	}()
 	userID := ""
 	losses := 0
+	srvUp := true
 	type inflightT struct {
 		done chan erpc.CallCmd
 		res  *Res
@@ -263,6 +285,18 @@ func runRedial(rec *Rec, app *App, fw *forwarder, sc *RedialScenario, n int) {
 		switch stp.Op {
 		case "call":
 			call(tag, stp.Expect)
+			if !srvUp {
+				// the model takes "a call while the server is unreachable" as one step that uses up the round of
+				// attempts: let that round finish before the server may come back (bounded; the probes judge the result)
+				WaitUntil(time.Second, func() bool {
+					select {
+					case <-sess.CloseNotify():
+						return true
+					default:
+						return false
+					}
+				})
+			}
 		case "calllong":
 			hold := make(chan struct{})
 			ent := make(chan struct{})
@@ -297,6 +331,7 @@ func runRedial(rec *Rec, app *App, fw *forwarder, sc *RedialScenario, n int) {
 			fw.cut()
 			detectLoss()
 		case "down":
+			srvUp = false
 			losses++
 			if sess.Health() && erpc.VerifStatus(sess) == 1 {
 				fw.waitConn(300 * time.Millisecond)
@@ -304,7 +339,22 @@ func runRedial(rec *Rec, app *App, fw *forwarder, sc *RedialScenario, n int) {
 			preLoss()
 			fw.down()
 			detectLoss()
+		case "blip":
+			// an outage that needs two of the three attempts: the server is back after 1.5 redial intervals
+			losses++
+			if sess.Health() && erpc.VerifStatus(sess) == 1 {
+				fw.waitConn(300 * time.Millisecond)
+			}
+			preLoss()
+			t0 := time.Now()
+			fw.down()
+			detectLoss()
+			if rest := interval*3/2 - time.Since(t0); rest > 0 {
+				time.Sleep(rest)
+			}
+			fw.up()
 		case "up":
+			srvUp = true
 			fw.up()
 		case "setid":
 			userID = fmt.Sprintf("user-%d", n)
